@@ -230,7 +230,21 @@ def render_expr(o, t, e, ctx):
     if k == "Seq":
         kids = []
         for i, x in enumerate(e["es"]):
-            if i:
+            if i and t.chance(0.15):
+                # SeqExpr <- LabeledExpr ( __ LabeledExpr )* : the separator may be EMPTY where the two tokens cannot run into
+                # each other: not identifier + identifier, and no identifier starting with i after a literal or class (that i
+                # would be the ignore-case suffix).  A dry run tells the first byte of the next item.
+                st, np_, off_ = t.rng.getstate(), len(o.parts), o.off
+                render_expr(o, t, x, 4)
+                first = b"".join(o.parts[np_:])[:1]
+                del o.parts[np_:]
+                o.off = off_
+                t.rng.setstate(st)
+                prev = o.text()[-1:]
+                identc = lambda b: b.isalnum() or b == b"_" or b >= b"\x80"
+                if (identc(prev) and identc(first)) or (prev in (b'"', b"'", b"`", b"]") and first == b"i") or first == b"" or prev == b"":
+                    o.w(" ")
+            elif i:
                 ws(o, t, must=True)
             kids.append(render_expr(o, t, x, 4))
         return node("Seq", kids[0].get("pstart", kids[0]["off"]), kids=kids)
@@ -336,7 +350,7 @@ def rand_rune(rng):
     return rng.choice(SPECIAL)
 
 
-IDENTS = ["A", "B1", "_c", "Rule_2", "été", "x", "Expr", "T9", "Ωm", "a_b"]
+IDENTS = ["A", "B1", "_c", "Rule_2", "été", "x", "Expr", "T9", "Ωm", "a_b", "in", "id1", "i"]
 LABELS = ["a", "b2", "_l", "val", "ü"]
 
 
